@@ -2,12 +2,12 @@ from driver import Job
 
 SPEC = {
     "engine": "E1", "level": "exploration",
-    "technique": "differential replicas (different host time zones, histories, restarts, rollbacks) + K re-executions per block on fresh check states + function-level time-zone grid; repeated in child processes with GOMAXPROCS 1/16 and other TZ",
+    "technique": "differential replicas (different host time zones, histories, restarts, rollbacks) + K re-executions per block on fresh check states + a catching-up node applying the blocks in batches through the full-sync / fork-examination paths + function-level time-zone grid and K re-executions of shard balancing on multi-shard states; repeated in child processes with GOMAXPROCS 1/16 and other TZ",
     "level_text": "Every block of generated histories is built on one replica and must be accepted by replicas living in other time zones, "
                   "by a restarted follower and by a follower that rolled back and re-applied; every proposed block is re-executed K times on "
                   "fresh states of two replicas (each Go map range draws a fresh order) and must reproduce header roots and byte-identical "
-                  "receipts; full state contents are compared after every block; the whole workload is repeated in children with GOMAXPROCS=1 and 16.",
-    "level_note": "consensus V12, synthetic epoch results (real-ceremony determinism is decided under C17); big.Float non-associativity only observable if it flips an integer truncation",
+                  "receipts; full state contents are compared after every block; a catching-up node takes the canonical blocks in batches of 1..9 the way protocol/full.go does (one ForCheckWithOverwrite view per batch, AddBlock with it, FinalizePrecommit) and every other batch first through ValidateSubChain, and must accept them and hold the same state contents; the real balanceShards is executed 4 times on fresh views of generated states with 1..4 shards (5000..11500 identities, uneven newbie/verified/suspended spread) and must give the same assignment and root; the whole workload is repeated in children with GOMAXPROCS=1 and 16.",
+    "level_note": "the batch application of the catching-up node mirrors the four calls of fullSync.processBatch/applyDeferredBlocks (the real wire path is driven under C11/C12); consensus V12, synthetic epoch results (real-ceremony determinism is decided under C17); big.Float non-associativity only observable if it flips an integer truncation",
     "rule": "case = one execution of one block by one variant (replica/zone/re-execution) or one grid point of the epoch-length function; "
             "distinct_nontrivial = distinct blocks (hash) with >=1 tx or a flag that were executed by >= 2 variants, plus distinct large-network grid points",
     "jobs": [
@@ -16,10 +16,13 @@ SPEC = {
         Job("chain-p16", "verifsim", "^TestVerifC01Chain$", shards=(1, 2), timeout=(900, 3600), gomaxprocs=16, env={"TZ": "Pacific/Tongatapu"}),
         Job("tzgrid", "verifsim", "^TestVerifC01TimeZone$", shards=(1, 1), timeout=(300, 300)),
         Job("shards", "verifsim", "^TestVerifC01Shards$", shards=(1, 2), timeout=(900, 3600)),
+        Job("balance", "blockchain", "^TestVerifC01Balance$", shards=(4, 8), timeout=(600, 1800)),
     ],
     "floors": {"revalidations": (5000, 50000), "epochs_finished": (4, 30), "epochs_finished_large_network": (1, 2), "identity_update_blocks": 50,
                "snapshot_blocks": 50, "contract_blocks": 20, "restarts": 10, "detours": 10, "distinct_map_orders_witnessed": 3,
-               "timezone_grid_points": 250000, "activation_blocks_with_tied_minimal_shards": 5, "max_shards_num": 2},
+               "timezone_grid_points": 250000, "activation_blocks_with_tied_minimal_shards": 5, "max_shards_num": 2,
+               "blocks_applied_through_full_sync_path": (2000, 8000), "full_sync_batches": (400, 1600), "batches_examined_as_fork": (150, 600),
+               "cases_suspended_relocated_into_several_shards": (3, 20), "identities_relocated": (30000, 200000)},
     "parallel": 16,
     "assumptions": ["consensus config V12", "daylight-saving zones (Europe/Berlin, America/New_York, Australia/Sydney) are used when the host has a tz database (counter dst_zones_available)", "replicas run sequentially in one goroutine; the host time zone is switched per replica via time.Local"],
 }
